@@ -234,9 +234,25 @@ def replay_file(path):
     return 0
 
 
+def _plain(x, depth=0):
+    """results cross a pipe: keep only plain data (a closure or a solver object inside a model / outcome would make
+    the whole result unpicklable and the item would look like a dead worker)"""
+    if isinstance(x, (str, int, float, bool)) or x is None:
+        return x
+    if depth > 12:
+        return str(x)[:200]
+    if isinstance(x, dict):
+        return {(k if isinstance(k, (str, int, float, bool)) or k is None else str(k)): _plain(v, depth + 1) for k, v in x.items()}
+    if isinstance(x, (list, tuple, set, frozenset)):
+        return [_plain(v, depth + 1) for v in x]
+    if isinstance(x, bytes):
+        return x
+    return str(x)[:500]
+
+
 def _child(item, conn):
     try:
-        conn.send(run_item(item))
+        conn.send(_plain(run_item(item)))
     except BaseException as ex:          # run_item reports its own errors; this is the last resort
         try:
             conn.send(dict(item=item, obligations=[dict(name=f"{item.get('pid')}:{item.get('spec')}", kind=item.get("kind"), verdict="ERROR",
@@ -283,6 +299,12 @@ def run_items(pid, items, jobs, limit_s=1500):
                     res = None
                 done = True
             elif not pr.is_alive():
+                # it may have answered and exited after wait() returned: the answer is then still in the pipe
+                try:
+                    if rx.poll(0.2):
+                        res = rx.recv()
+                except (EOFError, OSError):
+                    res = None
                 done = True
             elif time.time() - t1 > limit_s:
                 pr.terminate()
